@@ -28,6 +28,12 @@ for r in rows:
     print(f"| {r[0]} | {r[1]} | {r[2]} | {r[3]}: {r[4]} | {r[5]} | {' '.join(r[6]) or '-'} | {len(r[7])}: {', '.join(r[7])[:160]} | {', '.join(s+('=caught' if c else '=MISSED') for s,c in r[8]) or '-'} | {'yes' if r[9] else 'no'} |")
 
 print()
+print('### What each check claims (level_text / level_note of harness.json)')
+print()
+for hp in sorted(glob.glob(f'{root}/harness/C*/harness.json')):
+    h=json.load(open(hp))
+    print(f"* **{h['id']}** ({h.get('engine')}, {h.get('level')}): {h.get('level_text','').strip()} *Assumes:* {h.get('level_note','').strip()}")
+print()
 print('### Findings on ipfs/boxo (from known_findings.json and per-harness fragments)')
 print()
 seen=set()
